@@ -225,3 +225,31 @@ def rvalue_origins(body, defs, stmt):
     if rv.kind == 'ref':
         return origins(body, defs, rv.place)
     return [Origin('op', rv, (), None, None)]
+
+
+def forward_taint(body, seeds, through_calls=True):
+    """Forward propagation over locals: a local becomes tainted when assigned from an rvalue that
+    reads a tainted local (any projection) or from a call with a tainted argument. Flow-insensitive
+    (MIR temps are single-assignment), intraprocedural. Returns the set of tainted locals."""
+    tainted = set(seeds)
+    changed = True
+
+    def reads(op):
+        return op.place is not None and op.place.local in tainted
+    while changed:
+        changed = False
+        for b in body.blocks:
+            for s in b.stmts:
+                if s.kind != 'a':
+                    continue
+                rv = s.rv
+                hit = any(reads(o) for o in rv.ops) or (rv.place is not None and rv.place.local in tainted)
+                if hit and s.place.local not in tainted:
+                    tainted.add(s.place.local)
+                    changed = True
+            t = b.term
+            if t.kind == 'call' and through_calls and t.dest is not None:
+                if any(reads(a) for a in t.args) and t.dest.local not in tainted:
+                    tainted.add(t.dest.local)
+                    changed = True
+    return tainted
